@@ -1,131 +1,7 @@
-//! C12 — the LS_COLORS parser applies SGR codes left to right.
-//! Inputs are built from symbolic *codes* rendered as fixed-width decimal fields
-//! ("038;005;123": leading zeros are legal), so the text has a concrete shape and symbolic
-//! content.  BOUNDED in the number of codes; complete in their values.
+//! C12 — the LS_COLORS parser applies SGR codes left to right (see ls_core.tmpl.rs).
 #![allow(dead_code, unused_imports, missing_docs, unreachable_pub, clippy::all)]
 pub(crate) mod vk;
 pub(crate) mod spec_sgr;
 pub(crate) mod astyle;
 pub(crate) mod amodel;
-use amodel::*;
-use spec_sgr::*;
-
-/// the statement's semantics: apply the codes in order to the default style
-/// (None = a form the statement does not fix: 38/48/58 not followed by 5;n or 2;r;g;b)
-fn ls_apply(codes: &[u8], n: usize) -> Option<MStyle> {
-    let mut s = M_DEFAULT;
-    let mut i = 0;
-    // position inside an extended-colour group: 0 none, 1 after 38/48/58, 2 after 5, 3.. after 2
-    let mut g = 0u8;
-    let mut target = 0u8;
-    let mut rgb = [0u8; 3];
-    let mut k = 0;
-    while i < codes.len() {
-        if i < n {
-            let v = codes[i];
-            if g == 1 {
-                if v == 5 { g = 2; } else if v == 2 { g = 3; k = 0; } else { return None; }
-            } else if g == 2 {
-                let c = MColor::Idx(v);
-                if target == 38 { s.fg = c; } else if target == 48 { s.bg = c; } else { s.ul = c; }
-                g = 0;
-            } else if g == 3 {
-                rgb[k] = v;
-                k += 1;
-                if k == 3 {
-                    let c = MColor::Rgb(rgb[0], rgb[1], rgb[2]);
-                    if target == 38 { s.fg = c; } else if target == 48 { s.bg = c; } else { s.ul = c; }
-                    g = 0;
-                }
-            } else if v == 0 { s = M_DEFAULT; }
-            else if v == 1 { s.eff |= E_BOLD; }
-            else if v == 2 { s.eff |= E_DIMMED; }
-            else if v == 3 { s.eff |= E_ITALIC; }
-            else if v == 4 { s.eff |= E_UNDERLINE; }
-            else if v == 5 || v == 6 { s.eff |= E_BLINK; }
-            else if v == 7 { s.eff |= E_INVERT; }
-            else if v == 8 { s.eff |= E_HIDDEN; }
-            else if v == 9 { s.eff |= E_STRIKETHROUGH; }
-            else if v == 22 { s.eff &= !(E_BOLD | E_DIMMED); }
-            else if v == 23 { s.eff &= !E_ITALIC; }
-            else if v == 24 { s.eff &= !E_UNDERLINE; }
-            else if v == 25 { s.eff &= !E_BLINK; }
-            else if v == 27 { s.eff &= !E_INVERT; }
-            else if v == 28 { s.eff &= !E_HIDDEN; }
-            else if v == 29 { s.eff &= !E_STRIKETHROUGH; }
-            else if 30 <= v && v <= 37 { s.fg = MColor::Ansi(v - 30); }
-            else if v == 38 || v == 48 || v == 58 { g = 1; target = v; }
-            else if v == 39 { s.fg = MColor::Default; }
-            else if 40 <= v && v <= 47 { s.bg = MColor::Ansi(v - 40); }
-            else if v == 49 { s.bg = MColor::Default; }
-            else if v == 59 { s.ul = MColor::Default; }
-            else if 90 <= v && v <= 97 { s.fg = MColor::Ansi(v - 90 + 8); }
-            else if 100 <= v && v <= 107 { s.bg = MColor::Ansi(v - 100 + 8); }
-            // unknown codes are ignored
-        }
-        i += 1;
-    }
-    if g != 0 { None } else { Some(s) }
-}
-
-fn run_codes<const N: usize, const L: usize>() {
-    let mut codes = [0u8; N];
-    let mut text = [b';'; L];
-    let mut i = 0;
-    while i < N {
-        let v = vk::any_u8();
-        codes[i] = v;
-        text[4 * i] = b'0' + v / 100;
-        text[4 * i + 1] = b'0' + (v / 10) % 10;
-        text[4 * i + 2] = b'0' + v % 10;
-        i += 1;
-    }
-    let s = core::str::from_utf8(&text).unwrap();
-    let got = crate::parse(s);
-    // a list of one or more 3-digit fields is never "", "0" or "00": parse must accept it
-    assert!(got.is_some(), "a list of numbers in 0..=255 is accepted");
-    if let Some(want) = ls_apply(&codes, N) {
-        assert!(model_of(got.unwrap()) == want, "the parsed style is the default style with the codes applied left to right");
-    }
-    vk::vk_cover!(ls_apply(&codes, N).map(|m| m != M_DEFAULT).unwrap_or(false), "a list that changes the style");
-}
-
-#[cfg_attr(kani, kani::proof, kani::unwind(14))]
-#[cfg_attr(not(kani), test)]
-fn ls_codes_1() {
-    run_codes::<1, 3>();
-}
-
-#[cfg_attr(kani, kani::proof, kani::unwind(14))]
-#[cfg_attr(not(kani), test)]
-fn ls_codes_2() {
-    run_codes::<2, 7>();
-}
-
-#[cfg_attr(kani, kani::proof, kani::unwind(14))]
-#[cfg_attr(not(kani), test)]
-fn ls_codes_3() {
-    run_codes::<3, 11>();
-}
-
-#[cfg_attr(kani, kani::proof, kani::unwind(22))]
-#[cfg_attr(not(kani), test)]
-fn ls_codes_5() {
-    run_codes::<5, 19>();
-}
-
-/// 'no style' and rejection cases (concrete)
-#[cfg_attr(kani, kani::proof, kani::unwind(14))]
-#[cfg_attr(not(kani), test)]
-fn ls_reject_and_none() {
-    assert!(crate::parse("").is_none(), "the empty string means no style");
-    assert!(crate::parse("0").is_none(), "`0` means no style");
-    assert!(crate::parse("00").is_none(), "`00` means no style");
-    assert!(crate::parse("1;").is_none(), "an empty field is rejected");
-    assert!(crate::parse(";1").is_none(), "an empty field is rejected");
-    assert!(crate::parse("256").is_none(), "a number above 255 is rejected");
-    assert!(crate::parse("-1").is_none(), "a sign is rejected");
-    assert!(crate::parse("1 ").is_none(), "a space is rejected");
-    assert!(crate::parse("1a").is_none(), "a non-digit is rejected");
-    assert!(crate::parse("1:2").is_none(), "a colon is rejected");
-}
+mod ls_core;
